@@ -32,3 +32,34 @@ Theorem c07_label_stream_scan : forall e, iter_env e -> forall progs, wf_progs p
   chk_C07_mutex (c_labels (exec e (init progs) sched)) = true.
 Proof. exact iter_C07_mutex_scan. Qed.
 Print Assumptions c07_label_stream_scan.
+
+(** ** the wrapped iterator is not used after it has answered None
+
+    on the label stream (latest label first): no call of the wrapped next() ([LSrc], [LSrcPanic]) follows one
+    that answered None -- whether that None was the end of the wrapped iterator or a premature one.  (The
+    thread that meets None raises the completed flag before it publishes; a thread that finds its ticket at
+    the yielded counter afterwards looks at the completed flag once more and reports the end.) *)
+From OCI.proofs Require Import AfterNone.
+Theorem c07_no_call_after_none : forall e, iter_env e -> forall progs, wf_progs progs -> forall sched,
+  nowrap (c_labels (exec e (init progs) sched)) ->
+  no_src_after_none (c_labels (exec e (init progs) sched)) = true.
+Proof. exact iter_no_src_after_none. Qed.
+Print Assumptions c07_no_call_after_none.
+
+(** the same with the panics of the wrapped iterator: no call follows one that answered None or panicked *)
+Theorem c07_no_call_after_none_or_panic : forall e, iter_env e -> forall progs, wf_progs progs -> forall sched,
+  nowrap (c_labels (exec e (init progs) sched)) ->
+  no_src_after_stop (c_labels (exec e (init progs) sched)) = true.
+Proof. exact iter_no_src_after_stop. Qed.
+Print Assumptions c07_no_call_after_none_or_panic.
+
+(** the state form: once some call has answered None, in every later state no thread is about to call the
+    wrapped next(), and the completed flag is up or the thread that met the None is about to raise it *)
+Theorem c07_none_is_final : forall e, iter_env e -> forall progs, wf_progs progs -> forall sched,
+  nowrap (c_labels (exec e (init progs) sched)) ->
+  existsb is_none (c_labels (exec e (init progs) sched)) = true ->
+  (forall t q b g, t_pc (c_pool (exec e (init progs) sched) t) <> PSrc q b g) /\
+  (s_f (c_sh (exec e (init progs) sched)) = true \/
+   exists t, closing (t_pc (c_pool (exec e (init progs) sched) t)) = true).
+Proof. exact iter_none_is_final. Qed.
+Print Assumptions c07_none_is_final.
